@@ -288,7 +288,10 @@ impl<'a> Visit<'a> for NonPredicateParamIndexer<'a> {
                 }
 
                 let first_seg = ty.path.segments.first().unwrap();
-                self.visit_type_param_ident(&first_seg.ident);
+                if !self.visit_type_param_ident(&first_seg.ident) && ty.path.get_ident().is_some() {
+                    // NOTE: Const param given as a generic argument (`Wrapper<T, N>`) is parsed as a type
+                    self.visit_const_param_ident(&first_seg.ident);
+                }
                 syn::visit::visit_path(self, &ty.path);
             }
             _ => syn::visit::visit_type(self, node),
@@ -365,6 +368,9 @@ impl VisitMut for NonPredicateParamResolver<'_> {
 
                 if let Some(new_ty) = self.try_replace_type_path_with_type(&ty.path) {
                     *node = new_ty;
+                } else if ty.path.get_ident().is_some() {
+                    // NOTE: Const param given as a generic argument (`Wrapper<T, N>`) is parsed as a type
+                    self.try_replace_expr_path_with_type(&mut ty.path);
                 }
             }
             _ => syn::visit_mut::visit_type_mut(self, node),
